@@ -257,6 +257,48 @@ func vpH_C16_list_dups() {
 	vpReach("end")
 }
 
+// addressees whose ids differ in one component only (port, host, query value, path) are different
+// addressees: each one's id is in the flattened list
+func vpH_C16_list_near_ids() {
+	c1, c2 := vpRange('1', '4'), vpRange('1', '4')
+	vpAssume(c1 != c2)
+	s1, s2 := string([]byte{c1}), string([]byte{c2})
+	var ida, idb IRI
+	switch vpChoice(4) {
+	case 0:
+		ida, idb = IRI("https://h.ex:800"+s1+"/x"), IRI("https://h.ex:800"+s2+"/x")
+	case 1:
+		ida, idb = IRI("https://h"+s1+".ex/x"), IRI("https://h"+s2+".ex/x")
+	case 2:
+		ida, idb = IRI("https://h.ex/x?k="+s1), IRI("https://h.ex/x?k="+s2)
+	default:
+		ida, idb = IRI("https://h.ex:8001/x"), IRI("https://h.ex/x")
+	}
+	mk := func(id IRI) Item {
+		if vpBool() {
+			return &Actor{ID: id, Type: PersonType}
+		}
+		return id
+	}
+	x := &Activity{ID: vpMkIRI('i'), Type: LikeType, Object: IRI("https://h.ex/o")}
+	list := ItemCollection{mk(ida), mk(idb)}
+	switch vpChoice(3) {
+	case 0:
+		x.To = list
+	case 1:
+		x.CC = list
+	default:
+		x.Audience = list
+	}
+	FlattenProperties(x)
+	got := append(append(append(ItemCollection{}, x.To...), x.CC...), x.Audience...)
+	vpAssert("near-ids/both-kept", len(got) == 2)
+	if len(got) == 2 {
+		vpAssert("near-ids/each-is-its-id", vpEqItem(got[0], ida) && vpEqItem(got[1], idb))
+	}
+	vpReach("end")
+}
+
 // the same addressee mentioned in two different addressing lists is flattened in both
 func vpH_C16_cross_lists() {
 	id := vpMkIRI('a')
